@@ -165,13 +165,15 @@ def loss_from_answers(meas, answer_fn, metric='L2'):
 
 
 def loss_floor(meas, total=1.0):
-    """Numerical floor for loss comparisons: 1e-12 x (loss of the all-zero table + total^2 + 1).  A squared-error loss is only
-    resolved relative to the size of its terms; 1e-12 vs 1e-28 are both 'zero' against answers of magnitude 40."""
+    """Numerical floor for loss comparisons: 1e-12 x (loss of the all-zero table + size of the model term + 1).  A
+    squared-error loss is only resolved relative to the size of its terms (1e-12 vs 1e-28 are both 'zero' against answers
+    of magnitude 40); all terms are divided by the noise scale, so the floor does not depend on the units."""
     z = 0.0
     for m in meas:
         r = m.y / m.noise
-        z += 0.5 * float(r @ r)
-    return 1e-12 * (z + float(total) ** 2 + 1.0)
+        u = (m.Qd @ np.full(m.Qd.shape[1], float(total) / m.Qd.shape[1])) / m.noise
+        z += 0.5 * float(r @ r) + 0.5 * float(u @ u)
+    return 1e-12 * (z + 1.0)
 
 
 def model_answer_fn(model):
